@@ -48,6 +48,7 @@ def cases(draw):
         "tail": draw(st.sampled_from(["newline", "newline", "no_newline", "write_no_newline", "aug_write_no_newline"])),
         # MethodObject on a function nested in a method, with class members following that method
         "nested_target": draw(st.booleans()),
+        "closure": draw(st.booleans()),
         # the class sits inside a module-level compound statement (try / if): indented, yet its scope's parent is the module
         "class_in_block": draw(st.sampled_from([None, None, "try", "if"])),
         # the function UseFunction works on is a one-liner / the last thing of a file without final newline
@@ -79,7 +80,12 @@ def render(case):
     lib += ("        self.val %s d\n" % ["+=", "-=", "*="][len(case["uses"]) % 3]) if case["self_aug"] else "        self.val = self.val + d\n"
     lib += "        return self.val\n"
     lib += "    def scale(self, m):\n        tmp = self.val * m\n"
-    lib += "        return tmp + m + (self.val - self.other)\n" if case["self_read_in_expr"] else "        return tmp + m\n"
+    if case.get("closure"):
+        # the method's local is also read as a free variable of a function nested in the method
+        lib += "        def inner(k):\n            return tmp + k\n"
+        lib += "        return inner(m) + (self.val - self.other)\n" if case["self_read_in_expr"] else "        return inner(m)\n"
+    else:
+        lib += "        return tmp + m + (self.val - self.other)\n" if case["self_read_in_expr"] else "        return tmp + m\n"
     if case["subclass"]:
         lib += "class SubBox(Box):\n    def bump(self, d):\n        self.val = self.val - d\n        return self.val\n"
     blk = case.get("class_in_block")
@@ -244,9 +250,15 @@ def evaluate(case, env):
                 changes = MethodObject(project, res, off).get_changes("_Compute")
             elif r == "local_to_field":
                 off = lib.index("tmp")
+                if case.get("closure") and case["query"] == "use":
+                    off = lib.index("return tmp + k") + 7  # the occurrence inside the nested function
                 changes = LocalToField(project, res, off).get_changes()
             else:
-                if "fn.py" in files:
+                if case["query"] == "use" and "compute(" in files["use.py"]:
+                    # started from a reference in a client module, not from the definition
+                    res = project.get_file("use.py")
+                    off = files["use.py"].index("compute(")
+                elif "fn.py" in files:
                     res = project.get_file("fn.py")
                     off = files["fn.py"].index("def compute") + 4
                 else:
